@@ -60,6 +60,8 @@ func (r *fragReader) Read(p []byte) (int, error) {
 }
 
 type CaseC16 struct {
+	PadLen      int     `json:"pad_len"`  // non-sync filler bytes before Stream (long leading garbage)
+	TailLen     int     `json:"tail_len"` // non-sync filler bytes after Stream
 	Stream      ref.Hex `json:"stream"`
 	BufSize     int     `json:"buf_size"`
 	Chunks      []int   `json:"chunks"` // empty = whatever the caller asks for
@@ -118,7 +120,36 @@ func genC16(t *rapid.T) CaseC16 {
 		c.Chunks = rapid.SliceOfN(rapid.IntRange(1, 9), 1, 5).Draw(t, "chunks")
 	}
 	c.EOFWithData = rapid.Bool().Draw(t, "eof-with-data")
+	switch lk := rapid.IntRange(0, 399).Draw(t, "long-kind"); {
+	case lk < 60:
+		// leading garbage that ends around a multiple of the reader's buffer size, more than a buffer of data behind
+		k := rapid.IntRange(1, 2).Draw(t, "pad-bufs")
+		c.PadLen = k*c.BufSize + rapid.IntRange(-12, 4).Draw(t, "pad-delta")
+		if c.PadLen < 0 {
+			c.PadLen = 0
+		}
+		c.TailLen = c.BufSize + rapid.IntRange(0, 300).Draw(t, "tail-len")
+		if rapid.Bool().Draw(t, "bulk") {
+			c.Chunks = nil
+		}
+	case lk == 60:
+		c.PadLen = rapid.SampledFrom([]int{70000, 300000, 1000000, 1200000}).Draw(t, "pad-huge")
+		c.Chunks = nil
+	}
 	return c
+}
+
+// c16Bytes assembles the stream: filler (never a sync byte) ++ Stream ++ filler.
+func c16Bytes(c CaseC16) []byte {
+	s := make([]byte, 0, c.PadLen+len(c.Stream)+c.TailLen)
+	for i := 0; i < c.PadLen; i++ {
+		s = append(s, byte(0x80+i%0x47))
+	}
+	s = append(s, c.Stream...)
+	for i := 0; i < c.TailLen; i++ {
+		s = append(s, byte(0x90+i%0x37))
+	}
+	return s
 }
 
 // c16Plausible is the statement's header predicate at position i.
@@ -132,7 +163,7 @@ func c16Plausible(s []byte, i int) bool {
 }
 
 func checkC16(c CaseC16, x *hx.Ctx) *hx.Failure {
-	s := []byte(c.Stream)
+	s := c16Bytes(c)
 	want := -1
 	falseSyncs := 0
 	cutHeader := false
@@ -155,18 +186,20 @@ func checkC16(c CaseC16, x *hx.Ctx) *hx.Failure {
 	x.LabelIf(want < 0, "no-sync")
 	x.LabelIf(want == 0, "sync-at-0")
 	x.LabelIf(len(c.Chunks) > 0, "fragmenting-reader")
+	x.LabelIf(c.PadLen > 0, "long-leading-garbage")
+	x.LabelIf(c.PadLen >= 70000, "leading-garbage>=70000")
 
 	src := &fragReader{data: clone(s), chunks: c.Chunks, eofWithData: c.EOFWithData, failAfter: -1}
 	r := bufio.NewReaderSize(src, c.BufSize)
 	off, err := packet.Sync(r)
 	if want < 0 {
 		if err != gots.ErrSyncByteNotFound {
-			return hx.Failf("sync-notfound", "no plausible header in the stream but Sync returned (%d, %v), want ErrSyncByteNotFound; stream %x", off, err, s)
+			return hx.Failf("sync-notfound", "no plausible header in the stream but Sync returned (%d, %v), want ErrSyncByteNotFound; stream %x (pad %d)", off, err, head(c.Stream, 64), c.PadLen)
 		}
 		return nil
 	}
 	if err != nil {
-		return hx.Failf("sync-missed", "Sync returned error %v, first plausible header is at %d (%d false sync bytes before it); stream %x", err, want, falseSyncs, s)
+		return hx.Failf("sync-missed", "Sync returned error %v, first plausible header is at %d (%d false sync bytes before it); stream part %x (pad %d, buffer %d)", err, want, falseSyncs, head(c.Stream, 64), c.PadLen, c.BufSize)
 	}
 	rest, rerr := io.ReadAll(r)
 	if rerr != nil {
@@ -174,10 +207,10 @@ func checkC16(c CaseC16, x *hx.Ctx) *hx.Failure {
 	}
 	if !bytes.Equal(rest, s[want:]) {
 		pos := len(s) - len(rest)
-		return hx.Failf("sync-position", "after Sync the reader is at stream position %d, first plausible header is at %d; stream %x", pos, want, s)
+		return hx.Failf("sync-position", "after Sync the reader is at stream position %d, first plausible header is at %d; stream part %x (pad %d, buffer %d)", pos, want, head(c.Stream, 64), c.PadLen, c.BufSize)
 	}
 	if off != int64(want) {
-		return hx.Failf("sync-offset", "Sync returned offset %d, first plausible header is at %d (%d false sync bytes before it); stream %x", off, want, falseSyncs, s)
+		return hx.Failf("sync-offset", "Sync returned offset %d, first plausible header is at %d (%d false sync bytes before it); stream part %x (pad %d, buffer %d)", off, want, falseSyncs, head(c.Stream, 64), c.PadLen, c.BufSize)
 	}
 	return nil
 }
